@@ -170,6 +170,9 @@ def run(pid, tier, seed):
                                      json.dumps(o["final"])[:200], o["deadlock"], ", ".join(reasons)),
                                   {"source": "scheduler (outcome not in the model)", "flavour": fl, "g0": sc["g0"], "prog": sc["prog"], "outcome": o,
                                    "grant_sequence": oc["a_grant_sequence"], "tlc_reasons": reasons})
+    cov = vlib.action_coverage("MC_Locks", vlib.cfg_text({"Nodes": {1, 2}, "Vals": {1}, "Directed": True, "Threads": {1, 2}, "MaxCalls": 1,
+                                                          "MaxInitEdges": 1, "Rotational": False}, spec="LSpec", invariants=["Progress"]), "%s/cov" % tag)
+    rep.cov["action_coverage_small_model"] = cov
     rep.cov.update({"states": states, "transitions": transitions, "traces_validated_against_impl": exec_total,
                     "scenarios": scen_total, "schedules_executed_on_real_locks": exec_total, "distinct_outcomes_judged": outcomes_total,
                     "evaluations": exec_total, "distinct_nontrivial": outcomes_total,
